@@ -1274,6 +1274,20 @@ func (c *Ctx) socketWrittenOnlyByHandshake() {
 		n++
 		if recvNamed(host) == "service" {
 			bad = append(bad, fname(host)+" at "+c.P.InstrPos(site))
+			continue
+		}
+		// the socket handed to the writer is the connection of a service object (svc.conn): that connection runs unless
+		// the same function starts it only afterwards (the handshake of Connect / of the accept function)
+		if len(site.Common().Args) > 0 && ir.PathOf(site.Common().Args[0]).Class() == "service.service.conn" {
+			startsLater := false
+			for _, call := range ir.Calls(site.Parent()) {
+				if mCallee(r.Start)(call) && ir.CanReach(site, call) && !ir.CanReach(call, site) {
+					startsLater = true
+				}
+			}
+			if !startsLater {
+				bad = append(bad, fname(host)+" at "+c.P.InstrPos(site)+" (writes to the socket of a service object that is already running)")
+			}
 		}
 	}
 	sort.Strings(bad)
